@@ -115,6 +115,7 @@ theorem parseOne_no_crash (cfg : Cfg) (fs : FS) (fuel : Nat) (stack : List APath
             exact doLoads_no_crash cfg fs (parseOne cfg fs n) (fun s f sp st site => ih s f sp st site) _ _ _ _ _ _ _ h
           · exact finishFile_no_crash _ _ _ _ _ _
     · intro h; cases h
+    · intro h; cases h
 
 /-- **No internal error**: whatever the text of the root file and of every importable file, and
     whatever the configuration, the front end never ends in a crash. -/
